@@ -1624,3 +1624,139 @@ var rR16z = RuleRef{Name: "R16z", Doc: "two pinned mechanisms of the Raft librar
 		c.Undecided("R16z", "the store of Message.Commit in raft.sendHeartbeat")
 	}
 }}
+
+// commaOkLookup: cond is the ok of a comma-ok map lookup -- directly, or as the result of a first-party boolean helper
+// whose every return is the ok of `param.field[keyParam]` (s.has(key)). Returns the canonical names of the map and the
+// key in the caller's terms, and the map value (in the helper's terms when a helper is involved) for type tests.
+func commaOkLookup(cond ssa.Value) (mapCanon, keyCanon string, table ssa.Value, ok bool) {
+	if ex, isEx := cond.(*ssa.Extract); isEx && ex.Index == 1 {
+		if lk, isLk := ex.Tuple.(*ssa.Lookup); isLk && lk.CommaOk {
+			return canon(lk.X), canon(lk.Index), lk.X, true
+		}
+		return "", "", nil, false
+	}
+	call, isCall := cond.(*ssa.Call)
+	if !isCall {
+		return "", "", nil, false
+	}
+	cf := callee(call)
+	if cf == nil || !firstParty(cf) || cf.Blocks == nil || len(cf.Blocks) > 3 || cf.Signature.Results().Len() != 1 || !isBoolType(cf.Signature.Results().At(0).Type()) {
+		return "", "", nil, false
+	}
+	var lk *ssa.Lookup
+	for _, b := range cf.Blocks {
+		for _, in := range b.Instrs {
+			switch x := in.(type) {
+			case *ssa.Return:
+				ex, isEx := x.Results[0].(*ssa.Extract)
+				if !isEx || ex.Index != 1 {
+					return "", "", nil, false
+				}
+				l, isLk := ex.Tuple.(*ssa.Lookup)
+				if !isLk || !l.CommaOk || (lk != nil && lk != l) {
+					return "", "", nil, false
+				}
+				lk = l
+			case ssa.CallInstruction:
+				return "", "", nil, false
+			case *ssa.Store, *ssa.MapUpdate:
+				return "", "", nil, false
+			}
+		}
+	}
+	if lk == nil {
+		return "", "", nil, false
+	}
+	// map = <param r>.<field...>, key = <param k>
+	names := map[string]string{}
+	for i, p := range cf.Params {
+		if i < len(call.Call.Args) {
+			names[paramCanon(p)] = canon(call.Call.Args[i])
+		}
+	}
+	mc, kc := canon(lk.X), canon(lk.Index)
+	rm, rk := renameIdents(mc, names), renameIdents(kc, names)
+	if _, isP := lk.Index.(*ssa.Parameter); !isP {
+		return "", "", nil, false
+	}
+	return rm, rk, lk.X, true
+}
+
+// freshID: v is an identifier that cannot be in any table yet -- the result of a uuid generator (possibly converted to a
+// string), or a parameter that every call site binds to such a value.
+func (c *C) freshID(v ssa.Value, depth int) bool {
+	if depth > 3 {
+		return false
+	}
+	switch x := v.(type) {
+	case *ssa.Call:
+		if cf := x.Call.StaticCallee(); cf != nil && cf.Pkg != nil && strings.HasSuffix(cf.Pkg.Pkg.Path(), "/uuid") {
+			return true
+		}
+		// uuid.New().String(): a method of the uuid type on a fresh value
+		if cf := x.Call.StaticCallee(); cf != nil && cf.Signature.Recv() != nil && len(x.Call.Args) > 0 {
+			if n, ok := derefNamed(cf.Signature.Recv().Type()); ok && n.Obj().Pkg() != nil && strings.HasSuffix(n.Obj().Pkg().Path(), "/uuid") {
+				return c.freshID(x.Call.Args[0], depth+1)
+			}
+		}
+	case *ssa.Convert:
+		return c.freshID(x.X, depth+1)
+	case *ssa.ChangeType:
+		return c.freshID(x.X, depth+1)
+	case *ssa.Parameter:
+		fn := x.Parent()
+		pi := -1
+		for i, p := range fn.Params {
+			if p == x {
+				pi = i
+			}
+		}
+		sites := 0
+		for _, g := range c.P.allFuncs("memdb", "server") {
+			for _, b := range g.Blocks {
+				for _, in := range b.Instrs {
+					ci, ok := in.(ssa.CallInstruction)
+					if !ok || callee(ci) != fn || pi < 0 || pi >= len(ci.Common().Args) {
+						continue
+					}
+					sites++
+					if !c.freshID(ci.Common().Args[pi], depth+1) {
+						return false
+					}
+				}
+			}
+		}
+		return sites > 0
+	}
+	return false
+}
+
+// thinGetter: fn is a method that does nothing but return a field of its receiver (func (s *connState) selected() *MemDb
+// { return s.db }); returns the field's name.
+func thinGetter(fn *ssa.Function) (string, bool) {
+	if fn == nil || fn.Blocks == nil || len(fn.Blocks) != 1 || fn.Signature.Recv() == nil || len(fn.Params) != 1 || fn.Signature.Results().Len() != 1 {
+		return "", false
+	}
+	field := ""
+	for _, in := range fn.Blocks[0].Instrs {
+		switch x := in.(type) {
+		case *ssa.FieldAddr:
+			if x.X != ssa.Value(fn.Params[0]) {
+				return "", false
+			}
+			field = fieldName(x)
+		case *ssa.UnOp, *ssa.DebugRef:
+		case *ssa.Return:
+			u, ok := x.Results[0].(*ssa.UnOp)
+			if !ok {
+				return "", false
+			}
+			if _, ok := u.X.(*ssa.FieldAddr); !ok {
+				return "", false
+			}
+		default:
+			return "", false
+		}
+	}
+	return field, field != ""
+}
